@@ -26,8 +26,10 @@ EXPLANATION = (
     "functions; software and file-system modules never reach the Network container or another node's objects; R6.3 "
     "every send_frame/receive_frame implementation of an interface class tests `self.enabled` before any effect, "
     "Link.can_transmit_frame requires is_up, and is_up is the conjunction of both endpoints' enabled flags. NOT "
-    "decided: that B's state is unchanged in every history (behavioural), and correctness of zone classification by "
-    "address arithmetic."
+    "decided: that B's state is unchanged in every history (behavioural). R6.4: in the three source-zone functions the "
+    "tests that choose the destination zone (looked through predicate helpers) depend on the routing state - the route "
+    "table or an interface resolved through ARP/route lookup - because the zone whose inbound list applies is the port "
+    "the frame leaves by; the arithmetic of the route lookup itself is not decided."
 )
 TECHNIQUE = "static: CFG must-pass (verdict before effect) per filter function, zone call-graph check, who-may-call inventories, module layering check"
 ASSUMPTIONS = ["no monkey-patching of interface/node classes", "class-hierarchy analysis over-approximates dispatch"]
@@ -112,6 +114,94 @@ def _verdict_edges(fn: FuncInfo, g: CFG, acl_expr: str) -> Tuple[Set[int], List[
     return edges, notes
 
 
+_PORT_RE = re.compile(r"self\.(\w+_port)\b")
+
+
+def _cond_ports(ix, cls: ClassInfo, cond: ast.AST, truth: bool, depth: int = 2, scope: Optional[ast.AST] = None) -> Tuple[Set[str], Set[str]]:
+    """(ports the edge `cond is truth` selects, ports it excludes).  A comparison mentioning self.<z>_port selects z on its
+    true edge and excludes it on the false edge; `self.<helper>(...)` is looked through: the ports tested on the way to
+    `return True` (or named by a computed return value) are what its true edge selects, those guarding `return False` are
+    excluded by it."""
+    pos: Set[str] = set()
+    neg: Set[str] = set()
+    if isinstance(cond, ast.UnaryOp) and isinstance(cond.op, ast.Not):
+        return _cond_ports(ix, cls, cond.operand, not truth, depth, scope)
+    if isinstance(cond, ast.Name) and scope is not None:
+        # a local bound exactly once stands for its definition
+        defs = [st.value for st in ast.walk(scope) if isinstance(st, ast.Assign) and len(st.targets) == 1
+                and isinstance(st.targets[0], ast.Name) and st.targets[0].id == cond.id]
+        if len(defs) == 1:
+            return _cond_ports(ix, cls, defs[0], truth, depth, None)
+        return pos, neg
+    if isinstance(cond, ast.Compare):
+        ports = set(_PORT_RE.findall(unparse(cond)))
+        return (ports, set()) if truth else (set(), ports)
+    if isinstance(cond, ast.Call) and isinstance(cond.func, ast.Attribute) and unparse(cond.func.value) == "self" and depth > 0:
+        h = ix.find_method(cls, cond.func.attr)
+        if h is not None and not isinstance(h.node, ast.Lambda):
+            hg = CFG(h.node)
+            sel: Set[str] = set()
+            exc: Set[str] = set()
+            for n in hg.nodes:
+                if not isinstance(n.ast, ast.Return) or n.ast.value is None:
+                    continue
+                v = n.ast.value
+                guard_pos: Set[str] = set()
+                for e in hg.edges():
+                    if e.label and e.label[0] == "cond" and hg.path_avoiding([n], lambda x, ee=e: x is ee) is None:
+                        a, b = _cond_ports(ix, cls, e.label[1], bool(e.label[2]), depth - 1, h.node)
+                        guard_pos |= a
+                if isinstance(v, ast.Constant) and v.value is True:
+                    sel |= guard_pos
+                elif isinstance(v, ast.Constant) and v.value is False:
+                    exc |= guard_pos
+                else:
+                    sel |= set(_PORT_RE.findall(unparse(v))) | guard_pos
+            exc -= sel
+            return (sel, exc) if truth else (exc, sel)
+    return pos, neg
+
+
+def _routing_dependence(ix, fn: FuncInfo, conds: List[ast.AST], depth: int = 3) -> Optional[str]:
+    """Name the construct through which the given conditions (may-)depend on the routing state: a load of `route_table`
+    or a call of find_best_route / get_arp_cache_network_interface in the conditions, in any definition of a local they
+    mention (flow-insensitive), or in a self-method they call (transitively, bounded)."""
+    seen_fn: Set[int] = set()
+
+    def scan(f: FuncInfo, exprs: List[ast.AST], d: int) -> Optional[str]:
+        names: Set[str] = set()
+        work = list(exprs)
+        done: Set[int] = set()
+        while work:
+            e = work.pop()
+            if id(e) in done:
+                continue
+            done.add(id(e))
+            for x in ast.walk(e):
+                if isinstance(x, ast.Attribute) and x.attr == "route_table":
+                    return f"{f.short}: reads {unparse(x)}"
+                if isinstance(x, ast.Call) and call_name(x) in ("find_best_route", "get_arp_cache_network_interface"):
+                    return f"{f.short}: calls {unparse(x.func)}"
+                if isinstance(x, ast.Name) and x.id not in names:
+                    names.add(x.id)
+                    for st in ast.walk(f.node):
+                        if isinstance(st, ast.Assign) and any(isinstance(t, ast.Name) and t.id == x.id for t in st.targets):
+                            work.append(st.value)
+                        elif isinstance(st, ast.AnnAssign) and isinstance(st.target, ast.Name) and st.target.id == x.id and st.value:
+                            work.append(st.value)
+                if isinstance(x, ast.Call) and isinstance(x.func, ast.Attribute) and unparse(x.func.value) == "self" and d > 0 and f.cls:
+                    h = ix.find_method(f.cls, x.func.attr)
+                    if h is not None and id(h) not in seen_fn and not isinstance(h.node, ast.Lambda):
+                        seen_fn.add(id(h))
+                        r = scan(h, [h.node], d - 1)
+                        if r:
+                            return r
+        return None
+
+    return scan(fn, conds, depth)
+
+
+
 def r6_1(ctx: Ctx) -> None:
     ix = ctx.ix
     ctx.rule("R6.1", "verdict before effect: every path to ARP learning / session delivery / forwarding passes the "
@@ -173,6 +263,7 @@ def r6_1(ctx: Ctx) -> None:
     entry = ["_process_external_inbound_frame", "_process_internal_outbound_frame", "_process_dmz_outbound_frame"]
     dest = {"_process_dmz_inbound_frame": "dmz_port", "_process_internal_inbound_frame": "internal_port",
             "_process_external_outbound_frame": "external_port"}
+    zone_conds: Dict[str, List[ast.AST]] = {}
     for m in entry:
         fn = ix.method(f"Firewall.{m}")
         called = {call_name(c) for c in calls_in(fn.node)}
@@ -189,14 +280,33 @@ def r6_1(ctx: Ctx) -> None:
                 if nm in dest:
                     # positive port tests on the path
                     pos_ports, neg_ports = set(), set()
+                    deciding: List[ast.AST] = []
                     for e in g.edges():
-                        if e.label and e.label[0] == "cond" and isinstance(e.label[1], ast.Compare):
-                            mm = re.search(r"self\.(\w+_port)", unparse(e.label[1]))
-                            if mm and g.path_avoiding([n], lambda x, ee=e: x is ee) is None:
-                                (pos_ports if e.label[2] else neg_ports).add(mm.group(1))
+                        if e.label and e.label[0] == "cond" and g.path_avoiding([n], lambda x, ee=e: x is ee) is None:
+                            a, b = _cond_ports(ix, fw, e.label[1], bool(e.label[2]), 2, fn.node)
+                            pos_ports |= a
+                            neg_ports |= b
+                            if a or b:
+                                deciding.append(e.label[1])
+                    zone_conds.setdefault(m, []).extend(deciding)
                     okd = (dest[nm] in pos_ports) or (not pos_ports and dest[nm] not in neg_ports)
                     ctx.record("R6.1", ctx.key(fn, f"destination check {nm} matches the selecting port test"), fn.loc(n.ast), okd,
                                f"{nm} is chosen on: positive tests {sorted(pos_ports)}, negative tests {sorted(neg_ports)}")
+    # R6.4: the destination zone is the port the frame will leave by, so its selection consults the routing state
+    ctx.rule("R6.4", "destination-zone selection depends on the routing state (route table / resolved outbound interface), "
+                     "not on a port's own subnet alone")
+    for m in entry:
+        fn = ix.method(f"Firewall.{m}")
+        conds = zone_conds.get(m, [])
+        if not conds:
+            raise AnalysisError(f"R6.4: no port test selects the destination zone in Firewall.{m} (idiom changed)")
+        dep = _routing_dependence(ix, fn, conds)
+        ctx.record("R6.4", ctx.key(fn, "zone selection consults the routing state"), fn.loc(conds[0]), dep is not None,
+                   f"selecting tests [{'; '.join(sorted({unparse(c)[:70] for c in conds}))}] depend on the routing state via {dep}"
+                   if dep else
+                   f"the tests that choose the destination zone [{'; '.join(sorted({unparse(c)[:70] for c in conds}))}] look only at "
+                   f"the ports' own subnets: a destination routed through a port (next hop on its subnet) is checked against "
+                   f"another zone's list and forwarded without this zone's inbound check")
     for m in dest:
         fn = ix.method(f"Firewall.{m}")
         called = {call_name(c) for c in calls_in(fn.node)}
